@@ -69,7 +69,7 @@ def _fired(fb):
 
 
 def _thresholds(exp):
-    return sorted({max(exp - 1, 0), exp, exp + 1, 1, 2})
+    return sorted({0, max(exp - 1, 0), exp, exp + 1, 1, 2})
 
 
 def check_pair(ctx, code, what, key, exp_nodes, ensure, prevent, arg, count_field=None):
@@ -78,7 +78,7 @@ def check_pair(ctx, code, what, key, exp_nodes, ensure, prevent, arg, count_fiel
     lines = {getattr(n, 'lineno', None) for n in exp_nodes}
     for n in _thresholds(exp):
         ctx.evaluated(2)
-        if n >= 1:
+        if n >= 0:      # at_least=0 included: it can never fire
             try:
                 fb = ensure(arg, at_least=n)
                 if _fired(fb) != (exp < n):
